@@ -19,7 +19,7 @@ MIN_NONTRIVIAL = {"quick": 250, "thorough": 2500}
 REQUIRED = {"quick": {"split_checks": 1500, "permutation_checks": 500, "duplicate_checks": 500, "block_chunk_variations": 100, "extreme_neighbour_checks": 200, "estimators_covered": 15,
                       "bpe_parallel_strings": 100000, "bigbatch_rows": 1500},
             "thorough": {"split_checks": 15000, "permutation_checks": 5000, "duplicate_checks": 5000, "block_chunk_variations": 1000, "extreme_neighbour_checks": 2000, "estimators_covered": 15,
-                         "bpe_parallel_strings": 1000000, "bigbatch_rows": 6000}}
+                         "bpe_parallel_strings": 400000, "bigbatch_rows": 6000}}
 
 ROWWISE = sorted(n for n, z in zoo.ZOO.items() if z.rowwise)
 GROUPS = [["Ngram", "Skipgram"], ["LZ", "BPE"], ["Histogram", "KDE", "Distribution", "SlidingWindow", "SeqDiff"], ["Wasserstein"], ["Sinkhorn", "ApproxWasserstein"],
@@ -91,6 +91,8 @@ def check_case(ctx, c):
     tol = 0.0 if exact else 1e-9
     if name == "Skipgram":
         tol = 1e-9
+    if not exact:
+        tol = zoo.float_tol(c, est, tol)
 
     def T(items):
         return zoo.as_rows(_transform(est, c, name, dict(c, test=items)))
